@@ -157,7 +157,8 @@ def _shapes_dsa(tier, prop=None):
         dict(spec="chain3", stop_cycle=3, modes=["min"], algo_params=dict(variant="A", **P1), policy="favor:x1", fixed_initial=True),
         dict(spec="chain3", stop_cycle=3, modes=["min"], algo_params=dict(variant="C", **P1), policy="starve:x3", fixed_initial=True),
     ]
-    q += [dict(spec="pair2", stop_cycle=2, algo_params=dict(variant="B", **P1), warm_up=True)]
+    q += [dict(spec="pair2", stop_cycle=2, algo_params=dict(variant="B", **P1), warm_up=True),
+          dict(spec="iso_unary", stop_cycle=2, algo_params=dict(variant="A", **P1))]     # constraints but no neighbour
     # 4-6 variables, several cycles, real probabilities: decided by the sampled native pass only
     big = [dict(spec="rand4", stop_cycle=4, algo_params=dict(variant="A"), sample_only=True, sample_factor=4, sample_part=0, policy="random", sched_seed=1),
            dict(spec="rand5", stop_cycle=3, algo_params=dict(variant="B"), sample_only=True, sample_factor=4, sample_part=1, nary=True),
